@@ -58,6 +58,8 @@ EXTERNAL = {
     "os.path.abspath": ([], "pure (getcwd failure is accounted at os.getcwd)"),
     "os.path.basename": ([], "pure"), "os.path.dirname": ([], "pure"), "os.path.expanduser": ([], "pure"),
     "os.path.isabs": ([], "pure"), "os.path.join": ([], "pure"), "os.path.realpath": ([], "non-strict realpath does not raise OSError"),
+    "os.path.exists": ([], "swallows OSError and ValueError"), "os.path.lexists": ([], "swallows OSError and ValueError"),
+    "os.path.islink": ([], "swallows OSError and ValueError"),
     "os.path.isdir": ([], "swallows OSError and ValueError"), "os.path.isfile": ([], "swallows OSError and ValueError"),
     "os.linesep.join": ([], "str.join"),
     "stat.S_ISFIFO": ([], "pure"),
